@@ -19,6 +19,9 @@ CLAIMED = {
     'C03': ('DESIGN.md 4 C03', E1,
             'Answer sets, per-answer additionals, TTLs and flush marking of QueryHandler.async_response equal a declarative reference responder for every enumerated (registry script, questions, known answers) shape, for all service TTLs 1..2^31-1 and known-answer TTLs 0..2^32-1 (half-TTL boundary solver-decided).',
             'Trusted: as C05 plus the reference responder in vkit/responder.py. Question types and names are enumerated, not symbolic.'),
+    'C07': ('DESIGN.md 4 C07', E1,
+            'Smallest instance of the property only: two complete socket-less instances on one fake loop (one registers then unregisters a service, one browses and resolves the service from its Added callback) joined by a link delivering every multicast datagram to both hosts; the registration instant and the delay (0..100 ms) of one or two datagrams are solver variables and one chosen datagram (each of the first ten, each goodbye) is dropped. Convergence (one Added, resolvable, one Removed) within 6 s / 3 s is decided for every value.',
+            'Trusted: as C05 plus the link model in props/c07.py. Everything larger - 3..5 hosts, several services / types, update and close, duplication, arbitrary reordering, all delays symbolic at once - is outside the claim; the mechanisms are decided separately under C03, C04, C06, C08, C09, C10, C13, C18.'),
     'C08': ('DESIGN.md 4 C08', E1,
             'Three complete goodbyes 125 ms apart (address / NSEC only when no remaining service shares the host) and no withdrawn record with TTL > 0 after the third, for a query and the withdrawal at independent symbolic offsets 0..2000 ms in either order, all jitter draws and sighting ages; unregister and unregister-all, 1..2 services.',
             'Trusted: as C05 plus timers firing exactly on time. close() of the whole instance is C17.'),
@@ -70,9 +73,7 @@ CLAIMED = {
             'Trusted: CrossHair models of int/tuple equality, z3. Strings are not symbolic.'),
 }
 
-NOT_APPLICABLE = {
-    'C07': 'Quantifies over delivery schedules of dozens of datagrams among 2..5 complete instances; path count times per-path cost of several full stacks is far beyond exhaustible bounds, and a non-exhausted symbolic run is sampling (DESIGN.md 4 C07). The mechanisms it rests on are decided under C03/C04/C06/C08/C09/C10/C13/C18.',
-}
+NOT_APPLICABLE = {}
 
 PENDING = 'check not built yet in this session (see DESIGN.md section 4 for the planned obligations)'
 
